@@ -327,6 +327,18 @@ def r15c(ctx):
             ctx.ok(cid, mod.loc(c), "cleared whenever overwrite=True")
         else:
             ctx.bad(cid, mod.loc(c), f"_cached_plan.clear() only runs under {[t for t, pol in encl]}: an overwrite that does not satisfy this keeps the stale plan")
+    # fsspec reader: the dataset checksum is taken over the dataset's FILES (or its _metadata file), not the requested paths
+    fs_cls = model.cls("ReadParquetFSSpec")
+    di = model.method(fs_cls, "_dataset_info", own=True).node
+    ddefs = flow.Defs(di)
+    loops = [n for n in ast.walk(di) if isinstance(n, ast.For) and any(isinstance(c, ast.Call) and ast.unparse(c.func) == "fs.checksum" for c in ast.walk(n))]
+    if not loops:
+        raise AnalysisError("anchor vanished: checksum loop in ReadParquetFSSpec._dataset_info")
+    it = loops[0].iter
+    srcs = [ast.unparse(d.value) for d in ddefs.reaching(it.id, loops[0]) if d.value is not None] if isinstance(it, ast.Name) else [ast.unparse(it)]
+    real = [x for x in srcs if x != "[]"]
+    good = real and all(".files" in x or "_metadata" in x for x in real)
+    (ctx.ok if good else ctx.bad)("io.parquet.ReadParquetFSSpec._dataset_info:checksum-files", fs_cls.module.loc(loops[0]), "checksum over the dataset's files / its _metadata file" if good else f"the dataset checksum is computed over {real}: a directory entry does not change when its part files are rewritten in place, so a re-read keeps the old name and the cached plan")
     # FileInfo token
     fi = None
     for m in model.modules.values():
